@@ -283,6 +283,9 @@ func (s *Storage) getDeviceList(rows *sql.Rows, err error) ([]model.Device, erro
 
 // GetDeviceByDevAddr returns the device with the matching device address
 func (s *Storage) GetDeviceByDevAddr(devAddr protocol.DevAddr) ([]model.Device, error) {
+	if err := gate("GetDeviceByDevAddr", devAddr.String()); err != nil {
+		return nil, err
+	}
 	s.mutex.Lock()
 	defer s.mutex.Unlock()
 	return s.getDeviceList(s.devStmt.devAddrStatement.Query(devAddr.String()))
@@ -290,6 +293,9 @@ func (s *Storage) GetDeviceByDevAddr(devAddr protocol.DevAddr) ([]model.Device, 
 
 // GetDeviceByEUI retrieves a device by its EUI
 func (s *Storage) GetDeviceByEUI(devEUI protocol.EUI) (model.Device, error) {
+	if err := gate("GetDeviceByEUI", devEUI.String()); err != nil {
+		return model.Device{}, err
+	}
 	s.mutex.Lock()
 	defer s.mutex.Unlock()
 	return s.getDevice(s.devStmt.euiStatement.Query(devEUI.ToInt64()))
@@ -297,6 +303,9 @@ func (s *Storage) GetDeviceByEUI(devEUI protocol.EUI) (model.Device, error) {
 
 // GetDevicesByApplicationEUI returns all devices for the given application
 func (s *Storage) GetDevicesByApplicationEUI(appEUI protocol.EUI) ([]model.Device, error) {
+	if err := gate("GetDevicesByApplicationEUI", appEUI.String()); err != nil {
+		return nil, err
+	}
 	s.mutex.Lock()
 	defer s.mutex.Unlock()
 	return s.getDeviceList(s.devStmt.appEUIStatement.Query(appEUI.ToInt64()))
@@ -304,6 +313,9 @@ func (s *Storage) GetDevicesByApplicationEUI(appEUI protocol.EUI) ([]model.Devic
 
 // CreateDevice creates a device in the store
 func (s *Storage) CreateDevice(device model.Device, appEUI protocol.EUI) error {
+	if err := gate("CreateDevice", device.DeviceEUI.String()); err != nil {
+		return err
+	}
 	return s.doSQLExec(s.devStmt.putStatement, func(st *sql.Stmt) (sql.Result, error) {
 		return st.Exec(device.DeviceEUI.ToInt64(),
 			device.DevAddr.String(),
@@ -322,6 +334,9 @@ func (s *Storage) CreateDevice(device model.Device, appEUI protocol.EUI) error {
 
 // AddDevNonce adds a nonce to the device
 func (s *Storage) AddDevNonce(device model.Device, nonce uint16) error {
+	if err := gate("AddDevNonce", device.DeviceEUI.String()); err != nil {
+		return err
+	}
 	return s.doSQLExec(s.devStmt.nonceStatement, func(st *sql.Stmt) (sql.Result, error) {
 		return st.Exec(device.DeviceEUI.ToInt64(), nonce)
 	})
@@ -329,6 +344,9 @@ func (s *Storage) AddDevNonce(device model.Device, nonce uint16) error {
 
 // UpdateDeviceState updates the device state in the store
 func (s *Storage) UpdateDeviceState(device model.Device) error {
+	if err := gate("UpdateDeviceState", device.DeviceEUI.String()); err != nil {
+		return err
+	}
 	return s.doSQLExec(s.devStmt.updateStateStatement, func(st *sql.Stmt) (sql.Result, error) {
 		return st.Exec(device.FCntDn, device.FCntUp, device.KeyWarning, device.DeviceEUI.ToInt64())
 	})
@@ -336,6 +354,9 @@ func (s *Storage) UpdateDeviceState(device model.Device) error {
 
 // DeleteDevice removes a device from the store
 func (s *Storage) DeleteDevice(eui protocol.EUI) error {
+	if err := gate("DeleteDevice", eui.String()); err != nil {
+		return err
+	}
 	return s.doSQLExec(s.devStmt.deleteStatement, func(st *sql.Stmt) (sql.Result, error) {
 		return st.Exec(eui.ToInt64())
 	})
@@ -343,6 +364,9 @@ func (s *Storage) DeleteDevice(eui protocol.EUI) error {
 
 // UpdateDevice updates the device
 func (s *Storage) UpdateDevice(device model.Device) error {
+	if err := gate("UpdateDevice", device.DeviceEUI.String()); err != nil {
+		return err
+	}
 	return s.doSQLExec(s.devStmt.updateStatement, func(st *sql.Stmt) (sql.Result, error) {
 		return st.Exec(
 			device.DevAddr.String(),
